@@ -37,6 +37,14 @@ pub fn run(env: &Env) -> Report {
             let text = match rng.below(12) { 0 => format!("({})", w), 1 => format!("\"{}\"", w), 2 => format!("{}.", w), 3 => format!("'{}", w), 4 => format!("{}:`", w), 5 => format!("{}:", w), 6 => format!("{}!?", w), _ => w.clone() };
             let wrapped = text != w;
             let ctxv = |s: &Sess, what: &str| json!({"stream": "c09", "layout": PHONETIC, "opts": s.opts.bits_str(), "text": text, "events": s.events, "at": what});
+            // in a third of the cases a PREFIX of the word has a learned choice of its own: typing the word then passes through a
+            // text with a learned (non-zero) preselection on the way to a text without one
+            if ci % 3 == 1 && w.chars().count() > 1 {
+                let k = 1 + rng.below(w.chars().count() - 1);
+                let p: String = w.chars().take(k).collect();
+                let o = s.type_text(&mut t, &p);
+                match full(&o) { Some((c, sl)) if c.len() > 1 => { let i = (sl + 1 + rng.below(c.len() - 1)) % c.len(); s.commit(&mut t, i); rep.count("prefix-learned-first"); } _ => { s.finish(&mut t); } }
+            }
             let o = s.type_text(&mut t, &text);
             let (cands, sel) = match full(&o) { Some(x) => (x.0.clone(), x.1), None => continue };
             if cands.len() < 2 { s.finish(&mut t); continue; }
@@ -399,7 +407,54 @@ pub fn run_c10(env: &Env) -> Report {
     });
     let mut rep = Report::new("c10");
     for r in reps { rep.merge(r); }
+    rep.merge(live_damage(env));
     rep.notes.sort(); rep.notes.dedup();
+    rep
+}
+
+/// a user auto-correct file that is fine when the context is created and gets damaged (cut as by an interrupted save, emptied, replaced
+/// by JSON of the wrong shape) or removed WHILE THE CONTEXT LIVES: after the next reload of the configuration the context answers like
+/// one for which the file is absent — also for the words it has already composed (their lists were memoised with the old entries)
+fn live_damage(env: &Env) -> Report {
+    let valid: HashMap<String, String> = [("ami", "tumi"), ("atm", "atom"), ("kor", "kOr"), ("hlw", "hello"), ("academy", "ekaDemi")].iter().map(|(a, b)| (a.to_string(), b.to_string())).collect();
+    let doc = serde_json::to_vec(&valid).unwrap();
+    let mut faults: Vec<(String, Option<Vec<u8>>)> = vec![("removed".into(), None), ("emptied".into(), Some(vec![])), ("wrong shape: array".into(), Some(b"[1,2]".to_vec())), ("wrong shape: number value".into(), Some(b"{\"ami\":1}".to_vec()))];
+    for n in [1usize, doc.len() / 3, doc.len() / 2, doc.len() - 1] { faults.push((format!("cut to {} of {} bytes", n, doc.len()), Some(doc[..n].to_vec()))); }
+    let words = ["ami", "atm", "atme", "kor", "korei", "hlw", "amike", "academy", "bon"];
+    let reps = par_map(faults.len() * 2, |ui| {
+        let (fname, fbytes) = &faults[ui / 2];
+        let mut rep = Report::new("c10");
+        let mut t = env.trace(&format!("c10.live{}", ui));
+        t.line(&format!("case c10-live-{}", ui));
+        let mut opts = Opts::none(); opts.phonetic_suggestion = true; opts.english = ui % 2 == 1; opts.smart_quote = ui % 4 < 2;
+        let xdg = env.fresh_xdg(&format!("c10-live-{}", ui));
+        let xref = env.fresh_xdg(&format!("c10-live-ref-{}", ui));
+        std::fs::write(ac_path(&xdg), &doc).unwrap();
+        let (mut s, mut r) = match (Sess::new(&mut t, &env.data, "c", PHONETIC, opts, &xdg), Sess::new(&mut t, &env.data, "ref", PHONETIC, opts, &xref)) { (Some(a), Some(b)) => (a, b), _ => return rep };
+        s.follow_sel = false; r.follow_sel = false;
+        for w in words { if s.type_text(&mut t, w) == Obs::Panic { return rep; } s.finish(&mut t); }
+        match fbytes { None => { let _ = std::fs::remove_file(ac_path(&xdg)); }
+            Some(b) => { std::fs::write(ac_path(&xdg), b).unwrap(); if let Ok(f) = std::fs::OpenOptions::new().write(true).open(ac_path(&xdg)) { let _ = f.set_modified(std::time::SystemTime::now() + std::time::Duration::from_secs(7200)); } } }
+        let what = json!({"stream": "c10", "fault": fname, "file": "autocorrect", "when": "while the context lives"});
+        if s.update(&mut t, PHONETIC, opts) == Obs::Panic { rep.violation("C10", "update-panics", format!("update_engine panicked after the user auto-correct file was {}", fname), what.clone()); return rep; }
+        for w in words {
+            let (o, e) = (s.type_text(&mut t, w), r.type_text(&mut t, w));
+            rep.eval(Some(&format!("live|{}|{}", ui, w))); rep.count("live-damage-word");
+            if o == Obs::Panic { rep.violation("C10", "typing-panics", format!("typing {:?} panicked after the user auto-correct file was {}", w, fname), what.clone()); return rep; }
+            let same = match (&o, &e) { (Obs::Full { cands: a, sel: sa, .. }, Obs::Full { cands: b, sel: sb, .. }) => a == b && sa == sb, (x, y) => x == y };
+            if !same {
+                let mut w2 = what.clone(); w2["layout"] = json!(PHONETIC); w2["opts"] = json!(opts.bits_str()); w2["events"] = json!(s.events); w2["word"] = json!(w);
+                rep.violation("C10", "unreadable-not-treated-as-absent", format!("user auto-correct file {} while the context lives, configuration reloaded: typing {:?} gives {:?}, with the file absent {:?}", fname, w, render_obs(&o, true), render_obs(&e, true)), w2);
+                break;
+            }
+            s.finish(&mut t); r.finish(&mut t);
+        }
+        t.flush();
+        rep
+    });
+    let mut rep = Report::new("c10");
+    for r in reps { rep.merge(r); }
+    rep.notes.push(format!("user auto-correct file damaged / removed while the context lives: {} faults x 2 settings, words composed before and after", faults.len()));
     rep
 }
 
